@@ -94,3 +94,14 @@ def signed_zero_differs(a, b):
                 and math.copysign(1, a) != math.copysign(1, b))
     except Exception:
         return False
+
+
+def zero_signs(v):
+    """Signs of the float zeros inside a value (for counting raw differences that == does not see)."""
+    if isinstance(v, float):
+        return "-" if (v == 0 and math.copysign(1, v) < 0) else ""
+    if isinstance(v, complex):
+        return zero_signs(v.real) + "," + zero_signs(v.imag)
+    if isinstance(v, (tuple, list)):
+        return "|".join(zero_signs(x) for x in v)
+    return ""
